@@ -417,6 +417,43 @@ def fault_at_jth_node_sast(tier_name):
     return [rec]
 
 
+def fault_unrenderable_tree(dry_run: bool, one_line_first: bool, second_class: bool) -> bool:
+    """A transformer that BUILDS A TREE LIBCST CANNOT RENDER (the real django-model-without-dunder-str appends a method
+    to the one-line body of `class A(models.Model): pass`): no exception escapes LibcstTransformerPipeline.apply, the
+    file is byte-for-byte untouched, it is listed as failed exactly once and no ChangeSet is returned - or, should the
+    codemod handle the shape, the file is rewritten into valid Python and reported as changed.
+    post: _
+    """
+    from codemodder.registry import load_registered_codemods
+
+    global _DJANGO
+    if _DJANGO is None:
+        with NoTracing():
+            _DJANGO = {c.id: c for c in load_registered_codemods().codemods}["pixee:python/django-model-without-dunder-str"]
+    one = "class A(models.Model): pass\n"
+    multi = "class B(models.Model):\n    x = 1\n"
+    src = "from django.db import models\n" + (one + (multi if second_class else "") if one_line_first else (multi if second_class else "") + one)
+    fp = FakePath(src.encode())
+    fc = skel.FileContext(Path("/d"), fp, [], [], None)
+    with NoTracing():
+        try:
+            cs = _DJANGO.transformer.apply(skel.Ctx(dry_run), fc, None)
+        except Exception:  # noqa
+            return False
+    if fc.failures:
+        return fin(cs is None and fp.writes == [] and fp.content == src.encode() and [str(p) for p in fc.failures] == ["/d/f.py"])
+    if cs is None:
+        return fin(fp.writes == [])
+    try:
+        compile(fp.content.decode(), "m.py", "exec")
+    except SyntaxError:
+        return False
+    return fin(dry_run or len(fp.writes) == 1)
+
+
+_DJANGO = None
+
+
 def planted_swallowed_failure(kind: int, nf: int) -> bool:
     """Self-test: a pipeline that fails without recording the failure must be refuted.
     pre: 1 <= kind < 4 and 0 <= nf <= 1
@@ -479,6 +516,7 @@ SPEC = {
     "xh": [
         Xh("fault_libcst", 150, 300),
         Xh("fault_regex", 120, 300),
+        Xh("fault_unrenderable_tree", 100, 200),
         Xh("fault_xml", 120, 300),
         Xh("isolation", 240, 900),
         Xh("isolation_two_codemods", 240, 600),
